@@ -334,6 +334,22 @@ impl Property for ScProp {
 
     fn check(&self, v: &RunView, probes: &mut Probes) -> Verdict {
         let mut verdict = Verdict::default();
+        if let crate::sim::Outcome::StepBound { .. } = v.outcome {
+            // a document may legitimately never come to rest (e.g. done.state.X re-entering X whose initial
+            // child is final): then the reference diverges on the same inputs. If it does not, the session
+            // spins on its own - that is C12's business, recorded as such
+            if let (Some(sid), Some(doc)) = (v.out.root_sessions.first().copied().filter(|s| *s != 0), v.sc.docs[0].model.as_ref()) {
+                let real = real_trace(v, sid);
+                let pred = predict_full(doc, sid, &real.inputs, &self.quirks());
+                if pred.diverged {
+                    verdict.discarded = Some("diverging document: the reference exceeds the microstep cap on the same inputs".into());
+                } else {
+                    verdict.other_rules.push("C12.wedge:step-bound-although-the-reference-terminates".into());
+                    verdict.discarded = Some("step bound although the reference terminates (C12)".into());
+                }
+                return verdict;
+            }
+        }
         if !outcome_gate(v, &mut verdict) {
             return verdict;
         }
